@@ -193,6 +193,122 @@ def check_program(case: dict) -> Verdict:
     return v
 
 
+# ---------------------------------------------------------------------------- a clock that moves during the race
+
+
+class SeqClock:
+    """monotonic() returns the next value of a non-decreasing sequence (then keeps adding the last step):
+    time passes between two threads' clock reads, in whatever order the schedule makes them."""
+
+    def __init__(self, values):
+        self.values = list(values)
+        self.i = 0
+        self.reads = []
+        self.by_thread: dict = {}
+
+    def monotonic(self):
+        if self.i < len(self.values):
+            t = self.values[self.i]
+        else:
+            t = self.values[-1] + (self.i - len(self.values) + 1)
+        self.i += 1
+        self.reads.append(t)
+        import threading as _th
+
+        self.by_thread.setdefault(_th.get_ident(), []).append(t)
+        return 1000.0 + t / 64
+
+    def time(self):
+        return 1.7e9
+
+    def rel_ticks(self):
+        return self.values[min(self.i, len(self.values)) - 1] if self.i else 0
+
+
+def check_moving_clock(case: dict) -> Verdict:
+    """Budget under threads with time passing between the clock reads: results need not be linearizable
+    against a single instant, but the safety bound of C10/C17 must hold under every schedule: never more than
+    max_retries grants whose own timestamps lie within one window (no over-grant), no exception, no deadlock."""
+    v = Verdict()
+    mx, w = case["max"], case["window"]
+    nthreads = case["threads"]
+    holder: dict = {}
+    nsched = 0
+    npre = 0
+
+    def make():
+        clock = SeqClock(case["times"])
+        factory = LockFactory()
+        bootstrap.set_clock(clock)
+        bootstrap.set_sched(factory)
+        try:
+            b = Budget(max_retries=mx, window_s=w / 64)
+        finally:
+            bootstrap.set_sched(None)
+        grants: list = []
+        holder["clock"] = clock
+
+        def body():
+            import threading as _th
+
+            ok = b.consume(1)
+            mine = clock.by_thread.get(_th.get_ident()) or [None]
+            return (ok, mine[0])  # the timestamp this thread's consume() read
+
+        def observe():
+            # single-threaded follow-up consumes at the later times of the sequence
+            follow = []
+            for _ in range(case["follow"]):
+                i = len(clock.reads)
+                ok = b.consume(1)
+                follow.append((ok, clock.reads[i]))
+            return tuple(follow)
+
+        return factory, [body for _ in range(nthreads)], observe
+
+    try:
+        for choices, res, obs, s, err in explore(make, TARGET_FILES, max_preemptions=case.get("max_preemptions", 2), max_schedules=case.get("max_schedules", 3000)):
+            nsched += 1
+            if s.preemptions:
+                npre += 1
+            if err is not None:
+                v.fail("C17:budget:moving-clock:" + ("deadlock" if isinstance(err, Deadlock) else "hang"), f"{case}: {err} under schedule {choices}")
+                break
+            if any(r[0] == "exc" for r in res):
+                v.fail("C17:budget:moving-clock:exception", f"{case}: a thread raised {res} under schedule {choices}")
+                break
+            clock = holder["clock"]
+            granted = [r[1][1] for r in res if r[1][0]]
+            granted += [t for ok, t in obs if ok]
+            for gt in granted:
+                inside = [h for h in granted if gt - w < h <= gt]
+                if len(inside) > mx:
+                    v.fail("C17:budget:moving-clock:over-grant", f"{case}: {len(inside)} retries granted with timestamps {sorted(inside)} inside one window of {w} ticks (max_retries={mx}) under schedule {choices}")
+                    break
+            if v.violations:
+                break
+    finally:
+        bootstrap.set_clock(None)
+    v.evals = max(1, nsched)
+    v.nontrivial = npre > 0
+    v.tag("moving-clock", f"threads={nthreads}")
+    return v
+
+
+@st.composite
+def moving_clock_case(draw, tier: str):
+    w = draw(st.sampled_from([4, 16, 60]))
+    steps = st.sampled_from([0, 0, 1, 2, w - 1, w, w + 1, 2 * w, w // 2])
+    n = draw(st.sampled_from([2, 2, 3]))
+    follow = draw(st.sampled_from([2, 3, 4]))
+    t = draw(st.sampled_from([0, 5, 10]))
+    times = [t]
+    for _ in range(n + follow - 1):
+        t += draw(steps)
+        times.append(t)
+    return {"max": draw(st.sampled_from([1, 2, 2, 3])), "window": w, "threads": n, "follow": follow, "times": times, "max_preemptions": 2 if tier == "quick" else 3, "max_schedules": 1200 if tier == "quick" else 8000}
+
+
 # ---------------------------------------------------------------------------- program sources
 
 
@@ -234,7 +350,10 @@ PROP = Property(
         "schedules (full depth-first enumeration); (ii) Hypothesis-generated 2-3 thread programs with 1-3 operations per "
         "thread: all schedules with <= 2 (quick) / <= 3 (thorough) pre-emptive switches, capped per program. Oracle: "
         "(per-thread results, final state observed through follow-up operations) must be in the set produced by running the "
-        "same operations sequentially in every program-order-respecting order; no deadlock, no exception. Non-trivial = a "
+        "same operations sequentially in every program-order-respecting order; no deadlock, no exception. (iii) Budget with a "
+        "clock that advances between the threads' clock reads (steps around window_s): linearizability against one instant has no "
+        "meaning there, so the oracle is the safety bound - never more than max_retries grants whose own timestamps lie in one "
+        "window - plus no exception / deadlock, under all schedules with <= 2/3 pre-emptions. Non-trivial = a "
         "program for which at least one explored schedule pre-empted a thread inside a method; distinct = distinct (program, "
         "initial state, bound). evaluations counts schedules executed."
     ),
@@ -246,5 +365,6 @@ PROP = Property(
     streams=[
         Stream("two_by_one_all_schedules", check_program, enum=enum_two_by_one, quick=1, thorough=1, exhaustive=True),
         Stream("bounded", check_program, strategy=lambda tier: program_case(tier), quick=160, thorough=1200, per_shard_min=5),
+        Stream("budget_moving_clock", check_moving_clock, strategy=lambda tier: moving_clock_case(tier), quick=160, thorough=1500, per_shard_min=5),
     ],
 )
